@@ -112,14 +112,22 @@ func (v *collator_[V]) GetMaximum() int {
 // Public
 
 func (v *collator_[V]) CompareValues(first V, second V) bool {
+	// A traversal that panics must not leave its depth behind.
+	defer v.resetDepth()
 	return v.compareValues(ref.ValueOf(first), ref.ValueOf(second))
 }
 
 func (v *collator_[V]) RankValues(first V, second V) Rank {
+	// A traversal that panics must not leave its depth behind.
+	defer v.resetDepth()
 	return v.rankValues(ref.ValueOf(first), ref.ValueOf(second))
 }
 
 // Private
+
+func (v *collator_[V]) resetDepth() {
+	v.depth_ = 0
+}
 
 func (v *collator_[V]) compareArrays(first ref.Value, second ref.Value) bool {
 	// Check for maximum traversal depth.
